@@ -55,6 +55,8 @@ pub struct World {
     last_clock: (i128, i128),
     pend: Vec<(String, SVal)>,
     comm: Vec<(String, SVal)>,
+    /// the committed view after each successful commit that changed it: what survives a crash from then on
+    snaps: Vec<Vec<(String, SVal)>>,
     opn: u64,
     faults: Vec<u64>,
     q_next_time: Vec<Value>,
@@ -135,7 +137,10 @@ impl World {
                     self.pend.insert(0, (k.to_string(), v.clone().unwrap()));
                 }
                 "remove" => self.pend.retain(|(kk, _)| kk != k),
-                _ => self.comm = self.pend.clone(),
+                _ => {
+                    if self.comm != self.pend { self.snaps.push(self.pend.clone()); }
+                    self.comm = self.pend.clone();
+                }
             }
         }
         let (g, j) = match (op, &v) {
@@ -961,6 +966,14 @@ fn sval_of(v: &Value) -> SVal {
         SVal::Bool(v["bool"].as_bool().unwrap())
     }
 }
+/// a storage view in the JSON form of a case's "storage" field
+pub fn storage_json(m: &[(String, SVal)]) -> Value {
+    Value::Array(m.iter().map(|(k, v)| serde_json::json!([hex::encode(k.as_bytes()), match v {
+        SVal::Int(i) => serde_json::json!({"int": i.to_string()}),
+        SVal::Str(s) => serde_json::json!({"str": hex::encode(s.as_bytes())}),
+        SVal::Bool(b) => serde_json::json!({"bool": b}),
+    }])).collect())
+}
 fn arr(v: &Value, k: &str) -> Vec<Value> {
     v.get(k).and_then(|x| x.as_array()).cloned().unwrap_or_default()
 }
@@ -970,6 +983,7 @@ pub struct RunResult {
     pub jtrace: Vec<String>,
     pub backoffs_ms: Vec<u64>,
     pub committed: Vec<(String, SVal)>,
+    pub snaps: Vec<Vec<(String, SVal)>>,
     pub hang: bool,
     pub panic: Option<String>,
 }
@@ -1003,6 +1017,7 @@ pub fn run_sm(c: &Value) -> RunResult {
         last_clock,
         pend: storage.clone(),
         comm: storage,
+        snaps: vec![],
         opn: 0,
         faults: arr(c, "faults").iter().map(|x| x.as_u64().unwrap()).collect(),
         q_next_time: arr(c, "next_time"),
@@ -1049,6 +1064,7 @@ pub fn run_sm(c: &Value) -> RunResult {
         jtrace: std::mem::take(&mut w.jtrace),
         backoffs_ms: std::mem::take(&mut w.backoffs_ms),
         committed: w.comm.clone(),
+        snaps: std::mem::take(&mut w.snaps),
         hang,
         panic,
     }
